@@ -327,6 +327,7 @@ func runSingle(c *core.Ctx) {
 				s.lastFail = nil
 				s.markStale(true)
 				var running *inst
+				c.Sub() // instance contexts are handed over by the instances' tasks
 				for _, in := range s.insts {
 					if in.returned == 0 && in.ctx.Err() == nil {
 						running = in
@@ -334,6 +335,7 @@ func runSingle(c *core.Ctx) {
 				}
 				s.setContext(s.ctxs[s.ctxTag], true)
 				// restart=true restarts errored routines, and nothing else: a healthy running instance stays
+				c.Sub()
 				if running != nil && running.returned == 0 && running.ctx.Err() != nil {
 					c.Fail("C14.M6.running-instance-restarted", "SetContext(same context, restart=true) cancelled instance %d, which was running (not exited, not errored)", running.n)
 				}
